@@ -104,11 +104,25 @@ Definition obeys (tr : trace) (l : loc) (d : discipline) : Prop :=
     end.
 
 (* ---------- the access table ---------- *)
+(* Two kinds of "initialisation" are kept apart.
+   JInit (object level): the creator writes the field while the OBJECT is still
+   private to it (a fresh local, before `return` / `go` / storing it in a shared
+   table). Every access of every other thread to any field of the object is
+   after the publishing event, so such a row is safe against every other row.
+   JPub tag / JAfter tag (field level): the object is ALREADY shared when the
+   field is written. The write is ordered only before the accesses of threads
+   that the writer starts (Go), or that receive a message the writer sends
+   (Send -> Recv), AFTER the write in the writer's program order. A JPub row is
+   therefore safe only against the rows that are explicitly listed as JAfter
+   with the same tag (each with its written happens-after argument), never
+   against a plain or unlisted access. *)
 Inductive jclass :=
 | JPlain                 (* nothing but the locks held *)
 | JAtomic                (* through sync/atomic *)
-| JInit                  (* by the creating goroutine, before the object is published *)
-| JConfined (owner : Z). (* the field is only ever touched by one goroutine per object (tag = its role) *)
+| JInit                  (* by the creating goroutine, before the OBJECT is published *)
+| JConfined (owner : Z)  (* the field is only ever touched by one goroutine per object (tag = its role) *)
+| JPub (tag : Z)         (* field-level publication: by one goroutine per object, before its publishing event `tag` *)
+| JAfter (tag : Z).      (* an access site of a thread that is started / messaged by the publisher after the JPub write *)
 
 Record row := mkRow {
   r_field : Z;           (* field identifier *)
@@ -122,20 +136,31 @@ Definition jclass_eqb (a b : jclass) : bool :=
   match a, b with
   | JPlain, JPlain | JAtomic, JAtomic | JInit, JInit => true
   | JConfined x, JConfined y => x =? y
+  | JPub x, JPub y => x =? y
+  | JAfter x, JAfter y => x =? y
   | _, _ => false
   end.
 Definition is_init (r : row) : bool := jclass_eqb (r_class r) JInit.
 Definition is_atomic (r : row) : bool := jclass_eqb (r_class r) JAtomic.
 Definition same_owner (r1 r2 : row) : bool :=
   match r_class r1, r_class r2 with JConfined x, JConfined y => x =? y | _, _ => false end.
+(* two sites of the one goroutine that publishes the field *)
+Definition same_pub (r1 r2 : row) : bool :=
+  match r_class r1, r_class r2 with JPub x, JPub y => x =? y | _, _ => false end.
+(* r1 is the publishing write, r2 one of the sites listed as ordered after it *)
+Definition pub_after (r1 r2 : row) : bool :=
+  match r_class r1, r_class r2 with JPub x, JAfter y => x =? y | _, _ => false end.
 Definition share_lock (r1 r2 : row) : bool := existsb (fun m => existsb (Z.eqb m) (r_locks r2)) (r_locks r1).
 
-(* two access sites of one field can never race (r1 = r2: the same site in two goroutines) *)
+(* two access sites of one field can never race (r1 = r2: the same site in two goroutines).
+   Note what is NOT here: JPub against JPlain / JAtomic / JConfined / JAfter of another tag. *)
 Definition pair_safe (r1 r2 : row) : bool :=
   (negb (r_write r1) && negb (r_write r2))
   || (is_atomic r1 && is_atomic r2)
   || is_init r1 || is_init r2
   || same_owner r1 r2
+  || same_pub r1 r2
+  || pub_after r1 r2 || pub_after r2 r1
   || share_lock r1 r2.
 
 Definition race_free_table (tbl : table) : bool :=
@@ -144,12 +169,21 @@ Definition race_free_table (tbl : table) : bool :=
 (* ---------- traces that conform to a table ---------- *)
 (* how an execution relates to the table: which row each access comes from, who
    created each object and where it was published (class JInit: trusted
-   justification), and that JConfined fields are touched by one goroutine per
-   object (trusted justification) *)
+   justification), that JConfined fields are touched by one goroutine per
+   object (trusted justification), and for field-level publication (JPub /
+   JAfter: trusted justification, one written argument per listed site) which
+   goroutine publishes (object, tag) and by which of its events *)
 Record interp := mkInterp {
   site : nat -> nat;          (* index of an access event -> index of its row *)
   creator : Z -> thread;      (* object -> the goroutine that created it *)
-  pubidx : Z -> nat }.        (* object -> index of the event of its creator that publishes it *)
+  pubidx : Z -> nat;          (* object -> index of the event of its creator that publishes it *)
+  publisher : Z -> Z -> thread;  (* object, tag -> the goroutine that writes the field(s) of that tag *)
+  pubat : Z -> Z -> nat }.       (* object, tag -> index of the go statement / channel send of the publisher
+                                    that starts (messages) the readers *)
+
+(* the events that can publish a field of a shared object: they have an outgoing synchronisation edge *)
+Definition is_pub_event (e : ev) : bool :=
+  match e with Go _ _ | Send _ _ _ => true | _ => false end.
 
 Definition conforms (tbl : table) (tr : trace) (I : interp) : Prop :=
   (forall i t o f w a, nth_error tr i = Some (Acc t (o, f) w a) ->
@@ -159,7 +193,17 @@ Definition conforms (tbl : table) (tr : trace) (I : interp) : Prop :=
                (is_init r = true ->
                   t = creator I o /\ (i < pubidx I o)%nat /\
                   exists e, nth_error tr (pubidx I o) = Some e /\ thread_of e = creator I o) /\
-               (is_init r = false -> t = creator I o \/ hb tr (pubidx I o) i)) /\
+               (is_init r = false -> t = creator I o \/ hb tr (pubidx I o) i) /\
+               (* a JPub site: executed by the publisher of (o, tag), before its publishing
+                  go statement / send in program order *)
+               (forall tag, r_class r = JPub tag ->
+                  t = publisher I o tag /\ (i < pubat I o tag)%nat /\
+                  exists e, nth_error tr (pubat I o tag) = Some e /\ thread_of e = publisher I o tag /\
+                            is_pub_event e = true) /\
+               (* a JAfter site: executed by the publisher itself, or by a thread whose Go / Send-Recv
+                  edge leaves the publisher at or after that event (hence happens after it) *)
+               (forall tag, r_class r = JAfter tag ->
+                  t = publisher I o tag \/ hb tr (pubat I o tag) i)) /\
   (forall i j t t' o f w w' a a' r r',
      nth_error tr i = Some (Acc t (o, f) w a) -> nth_error tr j = Some (Acc t' (o, f) w' a') ->
      nth_error tbl (site I i) = Some r -> nth_error tbl (site I j) = Some r' ->
